@@ -459,8 +459,8 @@ func firstDiff(a, b string) (field, la, lb string) {
 			field = "?"
 			if len(f) > 1 {
 				field = f[1]
-				if f[0] == "wallets" {
-					field = "wallets"
+				if f[0] == "wallets" || f[0] == "cached-keystores" {
+					field = f[0]
 				}
 			}
 			return field, x, y
